@@ -2,7 +2,7 @@ import PV.C19.Model
 import PV.C19.Spec
 /-
   C19 — vocabulary of the property theorems: how a model result is read in reference terms, and
-  the decidable domain predicate that carves out the known deviations of the splitter.
+  the decidable domain predicate (a length bound).
 -/
 namespace PV.C19
 open Spec
@@ -46,15 +46,10 @@ def resolve : Option Quantity → Option Nat
 
 /-! ### domains -/
 
-/-- no run of digits anywhere in the text has a value above `i32::MAX` -/
-def smallNumerals : List Nat → Bool
-  | [] => true
-  | c :: r => decide (digitsValue ((c :: r).takeWhile isDigit) ≤ i32Max) && smallNumerals r
-
 /-- Templates on which the splitter is claimed to equal Python's: shorter than `i32::MAX` characters
-    (the parenthesis counter is an `i32`) and without a digit run above `i32::MAX` (the code
-    reports `IntTooBig` where Python accepts widths up to `2^63 - 1`). -/
-def InDomain (t : List Nat) : Prop := t.length < i32Max ∧ smallNumerals t = true
+    (the parenthesis counter of the mapping-key scanner is an `i32`).  Nothing else is excluded: since
+    4850e50 widths are read as `isize` and precisions checked against `i32::MAX`, as CPython does. -/
+def InDomain (t : List Nat) : Prop := t.length < i32Max
 
 instance (t : List Nat) : Decidable (InDomain t) := by unfold InDomain; exact inferInstance
 
